@@ -9,6 +9,7 @@
 (*    Dlv   only if the spec's receiver delivers exactly that payload now,      *)
 (*    Dead  only if the spec's receiver gives up now,                           *)
 (*    HsDlv only with the verdict the spec reaches on the 256 bytes,            *)
+(*    Recheck only if a packet handed out earlier still holds its payload,      *)
 (*    Quiesce only if nothing deliverable is left undelivered,                  *)
 (* and every step only if the invariants of Adnl hold afterwards.  The same run *)
 (* certifies that the reference server is a conforming peer (its frames decode  *)
@@ -103,6 +104,13 @@ TDead == /\ E.k = "Dead"
          /\ DeliverKind(E.d) \in {"bad", "eof"}
          /\ Deliver(E.d) /\ Same
 
+\* the receiving API's user looks again at a packet it was handed earlier (the very object, not a copy):
+\* it must still hold the payload that was delivered, i.e. the one that was sent
+TRecheck == /\ E.k = "Recheck"
+            /\ E.idx >= 1 /\ E.idx <= Len(delivered[E.d])
+            /\ HexToBytes(E.sha) = Sha256(delivered[E.d][E.idx])
+            /\ UNCHANGED <<hs, cp, sp, wire, buf, txoff, rxoff, sent, delivered, dead, eof, got, units, hit>> /\ Same
+
 \* end of the connection: the reported totals are the specification's and nothing deliverable is left
 TQuiesce == /\ E.k = "Quiesce"
             /\ E.nd[1] = Len(delivered["c2s"]) /\ E.nd[2] = Len(delivered["s2c"])
@@ -114,7 +122,7 @@ TraceInit == /\ l \in Starts /\ seg = l
              /\ AInit /\ hsdmg = FALSE
 TraceNext == /\ l <= N
              /\ (l # seg => Trace[l].k # "Reset")
-             /\ (TReset \/ THs \/ TSeg \/ THsDlv \/ TSend \/ THdr \/ TCorrupt \/ TTrunc \/ TDlv \/ TDead \/ TQuiesce)
+             /\ (TReset \/ THs \/ TSeg \/ THsDlv \/ TSend \/ THdr \/ TCorrupt \/ TTrunc \/ TDlv \/ TDead \/ TRecheck \/ TQuiesce)
              /\ Good'
              /\ Consume
 TraceSpec == TraceInit /\ [][TraceNext]_tvars
